@@ -113,6 +113,11 @@ func (w *World) RunScript(lines []string) (err error) {
 			if name == "" {
 				name = "db-" + toks[1]
 			}
+			if a["unreach"] == "fail" {
+				w.blocks.mu.Lock()
+				w.blocks.FailUnreachable = true
+				w.blocks.mu.Unlock()
+			}
 			if a["leak"] == "1" {
 				// baseline of store-layer goroutines before this scenario opens anything
 				for i := 0; i < 200; i++ {
